@@ -113,8 +113,16 @@ static int forget(void *p)
     return -1;
 }
 
-static int inject(void)
+/*
+ * vf_alloc_mode selects which sites are numbered and can fail: 0 libvna's
+ * own allocations (default), 1 those libyaml makes on libvna's behalf.
+ */
+int vf_alloc_mode;
+
+static int inject_at(int origin)
 {
+    if (origin != vf_alloc_mode)
+	return 0;
     ++vf_alloc_calls;
     if (vf_alloc_calls == vf_alloc_fail_at ||
 	vf_alloc_calls == vf_alloc_fail_at2) {
@@ -127,7 +135,7 @@ static int inject(void)
 
 void *vf_malloc(size_t n, const char *file, int line)
 {
-    if (inject())
+    if (inject_at(0))
 	return NULL;
     void *p = (malloc)(n);
     remember(p, file, line, 0);
@@ -136,7 +144,7 @@ void *vf_malloc(size_t n, const char *file, int line)
 
 void *vf_calloc(size_t a, size_t b, const char *file, int line)
 {
-    if (inject())
+    if (inject_at(0))
 	return NULL;
     void *p = (calloc)(a, b);
     remember(p, file, line, 0);
@@ -145,7 +153,7 @@ void *vf_calloc(size_t a, size_t b, const char *file, int line)
 
 void *vf_realloc(void *old, size_t n, const char *file, int line)
 {
-    if (inject())
+    if (inject_at(0))
 	return NULL;
     /*
      * realloc(p, 0) frees p and may return NULL; treat as in glibc.
@@ -166,7 +174,7 @@ void *vf_realloc(void *old, size_t n, const char *file, int line)
 
 char *vf_strdup(const char *s, const char *file, int line)
 {
-    if (inject())
+    if (inject_at(0))
 	return NULL;
     char *p = (strdup)(s);
     remember(p, file, line, 0);
@@ -176,7 +184,7 @@ char *vf_strdup(const char *s, const char *file, int line)
 int vf_vasprintf(char **sp, const char *fmt, va_list ap,
 	const char *file, int line)
 {
-    if (inject()) {
+    if (inject_at(0)) {
 	*sp = NULL;
 	return -1;
     }
@@ -197,6 +205,8 @@ void vf_free(void *p)
 /* libyaml's allocator (symbols renamed with objcopy) */
 void *yl_malloc(size_t n)
 {
+    if (inject_at(1))
+	return NULL;
     void *p = (malloc)(n);
     remember(p, "libyaml", 0, 1);
     return p;
@@ -204,6 +214,8 @@ void *yl_malloc(size_t n)
 
 void *yl_realloc(void *old, size_t n)
 {
+    if (inject_at(1))
+	return NULL;
     if (old != NULL)
 	(void)forget(old);
     void *p = (realloc)(old, n);
@@ -225,6 +237,8 @@ void yl_free(void *p)
 
 char *yl_strdup(const char *s)
 {
+    if (inject_at(1))
+	return NULL;
     char *p = (strdup)(s);
     remember(p, "libyaml", 0, 1);
     return p;
@@ -278,6 +292,21 @@ int vf_leak_report(unsigned long mark, char *buf, size_t n)
     return count;
 }
 
+/* number of blocks of the given origin allocated after mark and still live */
+int vf_leak_count_origin(unsigned long mark, int origin)
+{
+    int count = 0;
+
+    for (size_t i = 0; i < table_size; ++i) {
+	if (table[i].ptr == NULL || table[i].ptr == TOMB)
+	    continue;
+	if (table[i].serial <= mark || table[i].origin != origin)
+	    continue;
+	++count;
+    }
+    return count;
+}
+
 /*
  * vf_leak_discard: forget (and free) blocks allocated after mark so that one
  * leaking execution does not poison the accounting of the next.
@@ -303,4 +332,127 @@ void vf_fault_reset(void)
     vf_alloc_fail_at = 0;
     vf_alloc_fail_at2 = 0;
     vf_alloc_failed = 0;
+}
+
+/*
+ * libyaml life-cycle accounting.  The private libyaml has these entry points
+ * renamed to yl_real_*; the wrappers below keep the set of parsers, emitters
+ * and documents that were initialised and not yet deleted.  A caller that
+ * returns with an object still in the set has leaked it, whatever libyaml's
+ * own error paths do with their blocks.
+ */
+#include <yaml.h>
+extern int yl_real_yaml_parser_initialize(yaml_parser_t *);
+extern void yl_real_yaml_parser_delete(yaml_parser_t *);
+extern int yl_real_yaml_emitter_initialize(yaml_emitter_t *);
+extern void yl_real_yaml_emitter_delete(yaml_emitter_t *);
+extern int yl_real_yaml_document_initialize(yaml_document_t *,
+	yaml_version_directive_t *, yaml_tag_directive_t *,
+	yaml_tag_directive_t *, int, int);
+extern void yl_real_yaml_document_delete(yaml_document_t *);
+extern int yl_real_yaml_parser_load(yaml_parser_t *, yaml_document_t *);
+extern int yl_real_yaml_emitter_dump(yaml_emitter_t *, yaml_document_t *);
+
+#define YL_MAXLIVE 32
+static const void *yl_live[3][YL_MAXLIVE];	/* parser, emitter, document */
+
+static int yl_lost[3];	/* initialised again without having been deleted */
+
+static void yl_add(int kind, const void *p)
+{
+    for (int i = 0; i < YL_MAXLIVE; ++i)
+	if (yl_live[kind][i] == p) {
+	    /* same address (a local of a function called again): the
+	       earlier incarnation was never deleted */
+	    ++yl_lost[kind];
+	    return;
+	}
+    for (int i = 0; i < YL_MAXLIVE; ++i)
+	if (yl_live[kind][i] == NULL) {
+	    yl_live[kind][i] = p;
+	    return;
+	}
+}
+
+static void yl_del(int kind, const void *p)
+{
+    for (int i = 0; i < YL_MAXLIVE; ++i)
+	if (yl_live[kind][i] == p)
+	    yl_live[kind][i] = NULL;
+}
+
+/* number of libyaml objects of the kind initialised and not deleted */
+int vf_yaml_live(int kind)
+{
+    int n = yl_lost[kind];
+    for (int i = 0; i < YL_MAXLIVE; ++i)
+	if (yl_live[kind][i] != NULL)
+	    ++n;
+    return n;
+}
+
+void vf_yaml_forget(void)
+{
+    memset(yl_live, 0, sizeof(yl_live));
+    memset(yl_lost, 0, sizeof(yl_lost));
+}
+
+int yaml_parser_initialize(yaml_parser_t *parser)
+{
+    int rc = yl_real_yaml_parser_initialize(parser);
+    if (rc)
+	yl_add(0, parser);
+    return rc;
+}
+
+void yaml_parser_delete(yaml_parser_t *parser)
+{
+    yl_del(0, parser);
+    yl_real_yaml_parser_delete(parser);
+}
+
+int yaml_emitter_initialize(yaml_emitter_t *emitter)
+{
+    int rc = yl_real_yaml_emitter_initialize(emitter);
+    if (rc)
+	yl_add(1, emitter);
+    return rc;
+}
+
+void yaml_emitter_delete(yaml_emitter_t *emitter)
+{
+    yl_del(1, emitter);
+    yl_real_yaml_emitter_delete(emitter);
+}
+
+int yaml_document_initialize(yaml_document_t *document,
+	yaml_version_directive_t *version,
+	yaml_tag_directive_t *tags_start, yaml_tag_directive_t *tags_end,
+	int start_implicit, int end_implicit)
+{
+    int rc = yl_real_yaml_document_initialize(document, version, tags_start,
+	    tags_end, start_implicit, end_implicit);
+    if (rc)
+	yl_add(2, document);
+    return rc;
+}
+
+void yaml_document_delete(yaml_document_t *document)
+{
+    yl_del(2, document);
+    yl_real_yaml_document_delete(document);
+}
+
+int yaml_parser_load(yaml_parser_t *parser, yaml_document_t *document)
+{
+    int rc = yl_real_yaml_parser_load(parser, document);
+    if (rc)
+	yl_add(2, document);	/* on failure libyaml deleted it itself */
+    return rc;
+}
+
+int yaml_emitter_dump(yaml_emitter_t *emitter, yaml_document_t *document)
+{
+    yl_del(2, document);	/* consumed whether or not the dump works */
+    return yl_real_yaml_emitter_dump(emitter, document);
 }
